@@ -564,7 +564,8 @@ func (p *parser) skipWhiteSpace() {
 			continue
 		}
 		if p.chr >= utf8.RuneSelf {
-			if unicode.IsSpace(p.chr) {
+			// U+0085 is a White_Space character but not ECMAScript WhiteSpace (ECMA-262 5.1 - 7.2)
+			if p.chr != '\u0085' && unicode.IsSpace(p.chr) {
 				p.read()
 				continue
 			}
